@@ -143,7 +143,7 @@ func (va ClawbackVestingAccount) GetVestingPeriods() sdkvesting.Periods {
 
 // Validate checks for errors on the account fields
 func (va ClawbackVestingAccount) Validate() error {
-	if va.GetStartTime() >= va.GetEndTime() {
+	if va.GetStartTime() > va.GetEndTime() {
 		return errors.New("vesting start-time must be before end-time")
 	}
 
